@@ -2009,7 +2009,8 @@ static void pe_parse_certificates(PE* pe)
   if (yr_le32toh(directory->VirtualAddress) == 0 ||
       yr_le32toh(directory->VirtualAddress) > pe->data_size ||
       yr_le32toh(directory->Size) > pe->data_size ||
-      yr_le32toh(directory->VirtualAddress) + yr_le32toh(directory->Size) >
+      (uint64_t) yr_le32toh(directory->VirtualAddress) +
+              yr_le32toh(directory->Size) >
           pe->data_size)
   {
     return;
